@@ -301,7 +301,7 @@ def identify(
         and (follow_symlinks or not os.path.islink(objects[0]))
     ):
         recursive = False
-        logging.warn("recursive option disabled, input is not a directory object")
+        logging.warning("recursive option disabled, input is not a directory object")
 
     if recursive:
         if verify:
